@@ -29,8 +29,8 @@ def main():
         out.append("* " + f[len("fixed: "):])
     out.append("\n#### 0.7 Seeded changes and what the checks reported (`tools/run_all_seeds.sh`, quick tier)\n")
     out.append("Each seed is a change to `/repo` written by a sub-agent that saw only the property text, confirmed to keep the 190 "
-               "tests green and to break its demo (`seeded/<id>/`). The patch is applied to `/repo`, the property's quick check is "
-               "run, the tree is restored.\n")
+               "tests green and to break its demo (`seeded/<id>/`). The patch is applied to a scratch clone of `/repo` (`MINGUS_REPO`), the property's quick "
+               "check is run from a scratch copy of `/verif`; `/repo` itself is never patched.\n")
     out.append("| seed | what was changed | exit | report | first failing input found |\n|---|---|---|---|---|")
     res = {}
     rp = os.path.join(V, "seeded", "RESULTS.tsv")
